@@ -3,3 +3,4 @@ pub mod gen;
 pub mod model;
 pub mod obs;
 pub mod props;
+pub mod tzsyn;
